@@ -73,7 +73,7 @@ def gen_input(rng, target, knobs=None):
         tree = g.response(cc, enc=bool(enc) if enc is not None else (rng.random() < k.p_enc), fail=fail, n_sessions=ns)
         data, items = gen.serialise(tree)
         return dict(root="Response", data=data, cc=cc, enc=True if tree[7] else None, items=items, arms=g.arms,
-                    knobs=k, label="response:%s:rc%x:e%d" % (layout().commands[cc]["name"], tree[2], tree[7]))
+                    knobs=k, label="response:%s:rc%s:e%d" % (layout().commands[cc]["name"], ("%x" % tree[2]) if tree[2] in (0, 0x101, 0x100, 0x9A2, 0x1C4, 0xB01, 0x922, 0x84) else "other", tree[7]))
     if kind == "stream":
         n = rng.randint(1, 4)
         trees, metas = [], []
@@ -357,3 +357,40 @@ def shrink_faults(case, ids=("main",)):
         c["faults"] = sub
         c["tasks"] = [dict(t, data=bytes(b).hex()) if t["id"] in ids else t for t in case["tasks"]]
         yield c
+
+
+# ---- enumeration inside one run (thorough tier, and a quota of quick runs) --------------------------
+def with_variants(case, variants):
+    """variants: [(data bytes, fault records)] - the same scenario is replayed once per variant"""
+    case = dict(case)
+    case["variants"] = [{"data": bytes(d).hex(), "faults": f} for d, f in variants]
+    return case
+
+
+def check_variants(case, check_one):
+    """runs check_one on every variant of the case and merges the results"""
+    from ..runner import Result
+    res = Result()
+    for k, v in enumerate(case["variants"]):
+        sub = {kk: vv for kk, vv in case.items() if kk != "variants"}
+        sub["faults"] = v["faults"]
+        sub["tasks"] = [dict(t, data=v["data"]) if t["id"] == "main" else t for t in case["tasks"]]
+        r = check_one(sub)
+        res.violations += r.violations
+        res.stats.update(r.stats)
+        res.keys += r.keys
+        res.ctx += r.ctx
+        res.sched = r.sched
+        res.digest = (res.digest or "") + (r.digest or "")
+    res.count("enumerated-variants", len(case["variants"]))
+    res.count("runs-with-full-enumeration")
+    return res
+
+
+def shrink_variants(case):
+    """each variant alone (the minimiser keeps the first that still fails)"""
+    for v in case.get("variants", []):
+        sub = {kk: vv for kk, vv in case.items() if kk != "variants"}
+        sub["faults"] = v["faults"]
+        sub["tasks"] = [dict(t, data=v["data"]) if t["id"] == "main" else t for t in case["tasks"]]
+        yield sub
